@@ -4,6 +4,7 @@ import (
 	"context"
 	"errors"
 	"fmt"
+	"math"
 	"net/url"
 	"sync"
 	"sync/atomic"
@@ -25,7 +26,7 @@ type ConnDest struct {
 	destLock sync.RWMutex
 
 	// state
-	diff           atomic.Uint64
+	diff           atomic.Uint64 // math.Float64bits of the pool difficulty, which may be fractional
 	hr             gi.Hashrate
 	resultHandlers sync.Map // map[string]func(*stratumv1_message.MiningResult)
 
@@ -169,7 +170,7 @@ func (c *ConnDest) SetVersionRolling(versionRolling bool, versionRollingMask str
 }
 
 func (c *ConnDest) GetDiff() float64 {
-	return float64(c.diff.Load())
+	return math.Float64frombits(c.diff.Load())
 }
 
 func (c *ConnDest) GetHR() gi.Hashrate {
@@ -204,12 +205,12 @@ func (c *ConnDest) readInterceptor(msg i.MiningMessageGeneric) (resMsg i.MiningM
 		if xn == "" {
 			c.log.Warn("got notify before extranonce was set")
 		}
-		c.validator.AddNewJob(typed, float64(c.diff.Load()), xn, xnsize)
+		c.validator.AddNewJob(typed, c.GetDiff(), xn, xnsize)
 		c.firstJobOnce.Do(func() {
 			close(c.firstJobSignal)
 		})
 	case *sm.MiningSetDifficulty:
-		c.diff.Store(uint64(typed.GetDifficulty()))
+		c.diff.Store(math.Float64bits(typed.GetDifficulty()))
 	case *sm.MiningSetExtranonce:
 		c.SetExtraNonce(typed.GetExtranonce())
 	case *sm.MiningSetVersionMask:
